@@ -62,7 +62,7 @@ k5_window!(k5_codes_1700, 1700, 1800);
 k5_window!(k5_codes_1800, 1800, 65536);
 
 #[cfg_attr(kani, kani::proof)]
-#[cfg_attr(kani, kani::unwind(4))]
+#[cfg_attr(kani, kani::unwind(8))]
 pub fn k5_emitted() {
     vk_assert!(ErrorKind::ER_ACCESS_DENIED_ERROR as u16 == 1045, "[C13.codes.denied] ER_ACCESS_DENIED_ERROR must be 1045");
     vk_assert!(ErrorKind::ER_ACCESS_DENIED_ERROR.sqlstate() == b"28000", "[C13.codes.denied] ER_ACCESS_DENIED_ERROR must carry SQLSTATE 28000");
